@@ -15,6 +15,8 @@ def run(rep, fb, tier):
     from ..rules import methodrules
     methodrules.rule_record_by_name(rep, fb)
     records.rule_regular_length(rep, fb)
+    from ..rules import lints
+    lints.rule_sentinel_guard(rep, fb)
     forward.rule_same_name(rep, fb, select=lambda f: f["name"] in ("getitem_field", "getitem_fields", "getitem_next", "getitem_next_jagged", "getitem_range", "getitem_range_nowrap", "carry", "setitem_field", "field", "fields", "key", "fieldindex", "haskey", "astuple"), floor=100)
     from ..rules import pyrules_records
     pyrules_records.run(rep)
